@@ -17,6 +17,15 @@ CHECKS = {
             'Converters are called directly (to_py/to_xml, parse_duration/duration_string, parse_date_time/__str__); '
             'whitespace handling and values beyond 18 digits are outside the explored region.',
             'DESIGN.md section 2 C18'),
+    'C05': ('hypothesis generation of instances of every concrete data-type/container class (reflection over the '
+            'property descriptors + facets from the bundled XSD) with a write-parse-compare round-trip oracle and an '
+            'independent schema validation in a typed context',
+            'About 230 classes x generated member combinations; every instance is written, re-parsed, compared by an own '
+            'canonical form, written again, and validated against the bundled schemas through a wrapper schema '
+            '(xsi:type / global element); violations are bucketed per class and member and shrunk.',
+            'The generator keeps values inside the schema value space using required-ness and simple-type facets read from '
+            'the XSD files; tab/newline characters and classes listed in c05.EXCLUDED are not generated.',
+            'DESIGN.md section 2 C05'),
 }
 
 NOT_YET = {}
